@@ -92,6 +92,7 @@ const nilOptString = "__#NIL#__"
 type stringOptionalStats struct {
 	min    string
 	max    string
+	seen   bool
 	nils int64
 	maxDef uint8
 }
@@ -111,16 +112,14 @@ func (s *stringOptionalStats) add(vals []string, defs []uint8) {
 			s.nils++
 		} else {
 			val := vals[i]
-			if s.min == nilOptString {
-				s.min = val
+			if !s.seen {
+				// the first non-null value of the page; any string, including
+				// one equal to nilOptString, is a legal value
+				s.min, s.max, s.seen = val, val, true
 			} else {
 				if val < s.min {
 					s.min = val
 				}
-			}
-			if s.max == nilOptString {
-				s.max = val
-			} else {
 				if val > s.max {
 					s.max = val
 				}
@@ -139,14 +138,14 @@ func (s *stringOptionalStats) DistinctCount() *int64 {
 }
 
 func (s *stringOptionalStats) Min() []byte {
-	if s.min == nilOptString {
+	if !s.seen {
 		return nil
 	}
 	return []byte(s.min)
 }
 
 func (s *stringOptionalStats) Max() []byte {
-	if s.max == nilOptString {
+	if !s.seen {
 		return nil
 	}
 	return []byte(s.max)
